@@ -5,7 +5,7 @@ inner nodes by fixed templates around already well-formed fragments (H2); raw HT
 only through HtmlBlock / HtmlSpan tokens (H3, whole pipeline on tiny documents).
 """
 import html
-from vfy.lemma import lemma, P
+from vfy.lemma import lemma, P, Duck
 import vfy.lemma as L
 from vfy.lemmas.common import ALPH14, cp_ok, cp_in, S, all_ok, all_in, ks, fixed, by
 from vfy.plug.stubs import install_quote
@@ -238,7 +238,7 @@ def raw(text):
     return span_token.RawText(text)
 
 
-class RenderedInt:
+class RenderedInt(Duck):
     """an integer of which the renderer only uses `!= 1` and its decimal rendering"""
     def __init__(self, digits, is_one):
         self.digits, self.is_one = digits, is_one
@@ -292,7 +292,8 @@ def h2_image(c1: int, c2: int, c3: int, dq: bool, sq: bool) -> bool:
     install_quote()
     r = _renderer(dq, sq)
     tok = mk(span_token.Image, src=hole('src', '/u', c1, c2, c3), title=hole('title', 't', c1, c2, c3),
-             children=[mk(span_token.Emphasis, children=[raw(hole('alt', 'x', c1, c2, c3))])])
+             children=[mk(span_token.Emphasis, children=[raw(hole('alt', 'x', c1, c2, c3))]),
+                       mk(span_token.LineBreak, soft=True, content=''), mk(span_token.InlineCode, children=(raw('c'),))])
     return wf_html(r.render(tok))
 
 
